@@ -352,6 +352,10 @@ def apply_option(state, name, value, outputs=OUTPUTS):
             v = v[4:]
         if v.decode("latin-1") in table:
             state[n] = {v}
+        elif v.startswith(b"LOG_") and v[4:].decode("latin-1") in table:
+            # a doubled prefix (LOG_LOG_INFO): the documentation speaks of "an optional LOG_ prefix" and is silent about two of them --
+            # both readings are accepted (garbage => default, or the name behind the prefixes)
+            state[n] = {state.get("_defaults", DEFAULTS)[n], v[4:]}
         else:
             # garbage => built-in default; when it follows a valid occurrence the union also
             # accepts keeping that one (DESIGN 2.6)
